@@ -95,6 +95,7 @@ let dbg = ref true
 let cur = ref (fresh ())
 let alt : side option ref = ref None
 let rend_tbl : (int * int, n list list) Hashtbl.t = Hashtbl.create 64
+let strip_c (c : string) : string = if String.length c > 0 && c.[0] = 'w' then String.sub c 1 (String.length c - 1) else c
 
 let decimal_bytes (v : int) : n list =
   List.map (fun c -> n_of_int (Char.code c)) (List.of_seq (String.to_seq (string_of_int v)))
@@ -167,7 +168,7 @@ let process (line : string) : string option =
        | Some (a', []) -> cur := { !cur with w = { !cur.w with ar = a' } }; Some s
        | _ -> Some (s ^ " DESERFAIL model"))
   | ["rend"; v; mode; chunks] ->
-      let cs = if chunks = "-" then [] else List.map bytes_of_hex (String.split_on_char ',' chunks) in
+      let cs = if chunks = "-" then [] else List.map bytes_of_hex (List.map strip_c (String.split_on_char ',' chunks)) in
       Hashtbl.replace rend_tbl (int_of_string v, int_of_string mode) cs; Some "k"
   | ["qa"] -> Some (s_arena !cur.w.ar)
   | ["qeq"] -> Some (match !alt with None -> "e -" | Some a -> if a.w.ar = !cur.w.ar then "e 1" else "e 0")
@@ -201,6 +202,7 @@ let process (line : string) : string option =
   | ["qf"] ->
       Some (String.concat " " ("f" :: List.map (fun k -> string_of_int (int_of_nat k)) (free_list !cur.w.ar)))
   | ["qi"; h] -> Some (match handle (int_of_string h) with Some x -> q_iters x | None -> "r badhandle")
+  | ["qx"; h] -> Some (match handle (int_of_string h) with Some _ -> "y ok" | None -> "r badhandle")
   | ["qd"; h; which; pat] ->
       Some (match handle (int_of_string h) with
         | None -> "r badhandle"
@@ -412,7 +414,7 @@ let monitor (opsf : string) (obsf : string) (outf : string) =
                    (if !fresh then pending := Some ("serde", None, None, !cur.mar)); fresh := false
                | _ -> report "C16" ("unexpected observation " ^ obs))
           | ["rend"; v; mode; chunks] ->
-              let cs = if chunks = "-" then [] else List.map bytes_of_hex (String.split_on_char ',' chunks) in
+              let cs = if chunks = "-" then [] else List.map bytes_of_hex (List.map strip_c (String.split_on_char ',' chunks)) in
               Hashtbl.replace rend_tbl (int_of_string v, int_of_string mode) cs
           | ["qa"] -> (match p_arena obs with Some a' -> on_arena a' | None -> report "C01" ("unparsable arena dump " ^ obs))
           | ["qeq"] ->
@@ -467,6 +469,13 @@ let monitor (opsf : string) (obsf : string) (outf : string) =
                      if String.length obs > 0 && (try ignore (Str.search_forward (Str.regexp_string "diverge") obs 0); true with Not_found -> false)
                      then report "C02" "an iterator did not finish"
                    end)
+          | ["qx"; _] ->
+              bump "C09"; bump "C10";
+              if obs <> "y ok" && obs <> "r badhandle" then begin
+                report "C09" ("clone / fold / for_each / count / last / rev of an iterator disagree with repeated next(): " ^ obs);
+                report "C10" ("clone / fold / rfold / rev of a double-ended iterator disagree with repeated next()/next_back(): " ^ obs);
+                report "C02" ("an iterator consumed by internal iteration or through a clone does not yield each node once: " ^ obs)
+              end
           | ["qd"; h; which; pat] ->
               (match mhandle (int_of_string h) with
                | None -> ()
